@@ -121,8 +121,13 @@ func c07TTL(r *vRand) time.Duration {
 
 // offsets from now, always at least an hour away
 func c07Offset(r *vRand, future bool) int64 {
-	mags := []int64{c07Hour, 2 * c07Hour, 86400, 14 * 86400, 365 * 86400, 10 * 365 * 86400}
-	d := mags[r.Intn(len(mags))] + int64(r.Intn(3600))
+	// up to ~2090: expiry values on both sides of 0x80000000 (2038) while staying below 2^32 (2106)
+	mags := []int64{c07Hour, 2 * c07Hour, 86400, 14 * 86400, 365 * 86400, 10 * 365 * 86400, 13 * 365 * 86400, 40 * 365 * 86400, 64 * 365 * 86400}
+	k := r.Intn(len(mags))
+	if !future && k > 5 {
+		k -= 3 // the past stays within ten years (expiry values are non-negative)
+	}
+	d := mags[k] + int64(r.Intn(3600))
 	if future {
 		return d
 	}
